@@ -373,9 +373,9 @@ class C09Engine(Engine):
 
 # ====================================================================== universe
 
-NAMES = ["a", "b", "c"]
-SCHEMAS = ["public", "s"]
-ALIASES = [None, None, "x", "y", "public.a", "s.b", "a"]
+NAMES = ["a", "b", "c", "a.b"]
+SCHEMAS = ["public", "s", "s.a"]
+ALIASES = [None, None, "x", "y", "public.a", "s.b", "a", "s.a.b"]
 COLSPECS = [("id", "int"), ("v", "varchar"), ("w", "int"), ("id", "varchar"), ("u", "text")]
 
 
@@ -499,7 +499,7 @@ def draw_op(rng: random.Random, eng: C09Engine, weights: Dict[str, float]) -> Li
     if k == "rename":
         t = rng.choice(tables)
         field = rng.choice(["name", "name", "schema", "alias"])
-        pool = {"name": NAMES + ["d"], "schema": SCHEMAS + ["z"], "alias": ALIASES + ["", "w"]}[field]
+        pool = {"name": NAMES + ["d", "", "Table"], "schema": SCHEMAS + ["z", ""], "alias": ALIASES + ["", "w", " "]}[field]
         return ["rename", t, field, rng.choice(pool)]
     if k == "read":
         pool = [h for h, d in m.items() if d["kind"] in ("db", "db", "table", "ref", "enum")]
